@@ -84,6 +84,10 @@ func VerifC18_BeginBlock() {
 	rb, eb := k.GetRandom(ctx, idB)
 	_, ec := k.GetRandom(ctx, idC)
 	verifAssert(ea == nil && eb == nil, "every request due is fulfilled in the block after h+n")
+	// each number is derived from the block's app hash and time and from the request's OWN consumer
+	expA := types.MakePRNG(hdr.AppHash, now, alice, nil, false).GetRand().FloatString(types.RandPrec)
+	expB := types.MakePRNG(hdr.AppHash, now, bob, nil, false).GetRand().FloatString(types.RandPrec)
+	verifAssert(ra.Value == expA && rb.Value == expB, "each request's number is derived from the block and from its own requester")
 	verifAssert(ec != nil && st.Has(types.KeyRandomRequestQueue(due+1, idC)), "requests due later are untouched")
 	verifAssert(!st.Has(types.KeyRandomRequestQueue(due, idA)) && !st.Has(types.KeyRandomRequestQueue(due, idB)) && !st.Has(types.KeyRandomRequestQueue(due, idO)), "fulfilled requests leave the pending queue")
 	verifAssert(ra.Height == due && rb.Height == due && ra.RequestTxHash == reqA.TxHash && rb.RequestTxHash == reqB.TxHash, "result is stored under the request's id with its tx hash")
